@@ -98,7 +98,7 @@ Proof.
   destruct Hix as [Hi' Hx']. split; [|split; [exact Hset | exact Hx']].
   split; [exact Hw'|]. split; [exact Hi'|].
   destruct Hcase as [(_ & Hr & _)|(_ & _ & r' & Hr & Hcn)]; unfold recs_nn; rewrite Hr; [exact Hn|].
-  apply nn_rset; [exact Hn|]. intros d. rewrite Hcn. pose proof (old_nn (s_recs s) (to, [from]) d Hn). specialize (Hc d). lia.
+  apply nn_rset; [exact Hn|]. intros d. rewrite Hcn. pose proof (old_nn (s_recs s) (to, [trunc from]) d Hn). specialize (Hc d). lia.
 Qed.
 
 Lemma credits_good ts : forall s s',
@@ -141,7 +141,7 @@ Definition acc_paid (froms : list addr) (r : qrec) : coins :=
   end.
 
 Lemma key_of_record s k r r2 to :
-  wf s -> rget k (s_recs s) = Some r -> fst k = to -> sort (all_froms r2) = sort (all_froms r) ->
+  wf s -> rget k (s_recs s) = Some r -> fst k = to -> sfx_of (all_froms r2) = sfx_of (all_froms r) ->
   mk_key to (all_froms r2) = k.
 Proof.
   intros Hw Hg Hto Hs. pose proof (wf_rget _ _ _ Hw Hg) as [Hk _]. cbn [fst snd] in Hk.
@@ -216,6 +216,13 @@ Qed.
 Lemma can_pay_covered b a c : (forall d, amt c d <= b a d) -> can_pay b a c = true.
 Proof. intros H. unfold can_pay. apply forallb_forall. intros d _. apply Z.leb_le, H. Qed.
 
+Lemma accept_from_nonempty r froms r' : accept_from r froms = Some r' -> all_froms r' <> [].
+Proof.
+  unfold accept_from. destruct (filter (fun a => mem a froms) (q_unacc r)) as [|x fnd]; [discriminate|].
+  intros [= <-]. unfold all_froms. cbn [q_unacc q_acc]. intros E. apply app_eq_nil in E. destruct E as [_ E].
+  apply app_eq_nil in E. destruct E as [_ E]. discriminate.
+Qed.
+
 Lemma accept_one_total to froms si rel k r :
   wf si -> recs_nn si -> covers h si -> rget k (s_recs si) = Some r ->
   exists out, accept_one h to froms (Some (si, rel)) (k, r) = Some out.
@@ -224,11 +231,7 @@ Proof.
   destruct (accept_from r froms) as [r1|] eqn:Eaf; [|eexists; reflexivity].
   destruct (accept_from_spec _ _ _ Eaf) as (Hc1 & _ & Hsort1).
   assert (Hne : forall r2, all_froms r2 = all_froms r1 -> all_froms r2 <> []).
-  { intros r2 E2 E. rewrite E2 in E. pose proof (wf_rget _ _ _ Hw Hg) as [_ Hun]. cbn [snd] in Hun.
-    assert (Hp : Permutation (all_froms r) (all_froms r1)).
-    { eapply perm_trans; [apply Permutation_sym, sort_perm|]. rewrite <- Hsort1. apply sort_perm. }
-    rewrite E in Hp. apply Permutation_sym, Permutation_nil in Hp. unfold all_froms in Hp.
-    apply app_eq_nil in Hp. apply Hun, Hp. }
+  { intros r2 E2 E. rewrite E2 in E. revert E. apply (accept_from_nonempty _ _ _ Eaf). }
   destruct (fully_accepted r1).
   - rewrite marker_ok_holder. cbn [andb]. rewrite can_pay_covered.
     + destruct (set_record_some (with_bal si (bal_add (bal_sub (s_bal si) h (q_coins r1)) to (q_coins r1))) to r1
@@ -418,15 +421,15 @@ Variable h : addr.
 
 (** what an accepted Accept does to each record (sharp form) *)
 Lemma accept_sharp s to froms perm s' rel :
-  wf s -> accept h s to froms perm = Some (s', rel) ->
+  wf s -> inj_named froms -> accept h s to froms perm = Some (s', rel) ->
   wf s' /\ s_xfer s' = s_xfer s /\ (idx_sound s -> idx_sound s') /\ (recs_nn s -> recs_nn s') /\
   (forall k, ~ In k (map fst (get_records s to froms)) -> rget k (s_recs s') = rget k (s_recs s)) /\
   (forall k r, In (k, r) (get_records s to froms) -> rget k (s_recs s') = acc_res s to froms r) /\
   (forall d, amt rel d = paid_sum froms (get_records s to froms) d).
 Proof.
-  intros Hw. unfold accept. destruct froms as [|f0 fr] eqn:Ef; [discriminate|]. rewrite <- Ef.
+  intros Hw Hinj. unfold accept. destruct froms as [|f0 fr] eqn:Ef; [discriminate|]. rewrite <- Ef in *.
   destruct (fold_left _ _ _) as [[s1 rel1]|] eqn:Efold; [|discriminate]. intros [= <- <-].
-  destruct (get_records_spec s to froms) as [Hnd Hrs].
+  destruct (get_records_spec s to froms Hinj) as [Hnd Hrs].
   destruct (accept_fold_sharp h to froms s _ _ _ _ _ Hnd Hw (same_settings_refl s) Hrs Efold)
     as (Hw1 & _ & Hx1 & Hi1 & Hn1 & Hfr1 & Hk1 & Hrel1).
   set (sf := if perm then _ else s1).
@@ -440,14 +443,14 @@ Qed.
 
 (** what a Decline does to each record (it never fails on a non-empty sender list) *)
 Lemma decline_sharp s to froms perm :
-  wf s -> froms <> [] ->
+  wf s -> inj_named froms -> froms <> [] ->
   exists s', decline s to froms perm = Some s' /\
   wf s' /\ s_bal s' = s_bal s /\ s_xfer s' = s_xfer s /\ (idx_sound s -> idx_sound s') /\ (recs_nn s -> recs_nn s') /\
   (forall k, ~ In k (map fst (get_records s to froms)) -> rget k (s_recs s') = rget k (s_recs s)) /\
   (forall k r, In (k, r) (get_records s to froms) -> rget k (s_recs s') = Some (dec_res froms r)).
 Proof.
-  intros Hw Hne. unfold decline. destruct froms as [|f0 fr] eqn:Ef; [contradiction|]. rewrite <- Ef.
-  destruct (get_records_spec s to froms) as [Hnd Hrs].
+  intros Hw Hinj Hne. unfold decline. destruct froms as [|f0 fr] eqn:Ef; [contradiction|]. rewrite <- Ef in *.
+  destruct (get_records_spec s to froms Hinj) as [Hnd Hrs].
   destruct (decline_fold_sharp to froms _ s Hnd Hw Hrs) as (s1 & Efold & Hw1 & Hb1 & _ & Hx1 & Hi1 & Hn1 & Hfr1 & Hk1).
   rewrite Efold. eexists. split; [reflexivity|].
   set (sf := if perm then _ else s1).
@@ -459,9 +462,9 @@ Proof.
   split; [exact Hfr1 | exact Hk1].
 Qed.
 
-Lemma step_good s o s' res : good s -> step h s o = (s', res) -> good s' /\ s_xfer s' = s_xfer s.
+Lemma step_good s o s' res : good s -> named_ok o -> step h s o = (s', res) -> good s' /\ s_xfer s' = s_xfer s.
 Proof.
-  intros Hg. destruct o as [a|a|from to c|from inc outs|ins to|to froms perm|to froms perm|to ups]; cbn [step].
+  intros Hg Hno. destruct o as [a|a|from to c|from inc outs|ins to|to froms perm|to froms perm|to ups]; cbn [step].
   - intros [= <- _]. unfold opt_in. destruct (is_optin s a); split; try exact Hg; reflexivity.
   - intros [= <- _]. split; [exact Hg | reflexivity].
   - unfold lift. destruct (send h s from to c) as [s1|] eqn:E; intros [= <- _]; [|split; [exact Hg | reflexivity]].
@@ -488,12 +491,12 @@ Proof.
     { apply Forall_map. cbn [snd]. apply (valid_all_nonneg (fun o : addr * coins => snd o)), Ev. }
     destruct (credits_good h _ _ _ Hg0 Hn E) as (A & _ & C). split; [exact A | congruence].
   - destruct (accept h s to froms perm) as [[s1 rel]|] eqn:E; intros [= <- _]; [|split; [exact Hg | reflexivity]].
-    destruct Hg as (Hw & Hi & Hn). destruct (accept_sharp _ _ _ _ _ _ Hw E) as (A & B & C & D & _).
+    destruct Hg as (Hw & Hi & Hn). destruct (accept_sharp _ _ _ _ _ _ Hw Hno E) as (A & B & C & D & _).
     split; [split; [exact A | split; [apply C, Hi | apply D, Hn]] | exact B].
   - unfold lift. destruct froms as [|f0 fr] eqn:Ef.
     + cbn [decline]. intros [= <- _]. split; [exact Hg | reflexivity].
-    + rewrite <- Ef. destruct Hg as (Hw & Hi & Hn).
-      destruct (decline_sharp s to froms perm Hw) as (s1 & E & A & _ & B & C & D & _); [rewrite Ef; discriminate|].
+    + rewrite <- Ef in *. destruct Hg as (Hw & Hi & Hn).
+      destruct (decline_sharp s to froms perm Hw Hno) as (s1 & E & A & _ & B & C & D & _); [rewrite Ef; discriminate|].
       rewrite E. intros [= <- _]. split; [split; [exact A | split; [apply C, Hi | apply D, Hn]] | exact B].
   - unfold lift. destruct (update_auto s to ups) as [s1|] eqn:E; intros [= <- _]; [|split; [exact Hg | reflexivity]].
     unfold update_auto in E. destruct ups as [|u0 ups0] eqn:Eu; [discriminate|]. rewrite <- Eu in *.
@@ -502,23 +505,24 @@ Proof.
     destruct Hk as (A & B & _ & D). split; [exact (good_frame _ _ A B Hg) | exact D].
 Qed.
 
-Lemma run_good ops : forall s, good s -> good (run h s ops) /\ s_xfer (run h s ops) = s_xfer s.
+Lemma run_good ops : forall s, good s -> Forall named_ok ops -> good (run h s ops) /\ s_xfer (run h s ops) = s_xfer s.
 Proof.
-  induction ops as [|o ops IH]; intros s Hg; cbn [run fold_left]; [split; [exact Hg | reflexivity]|].
+  induction ops as [|o ops IH]; intros s Hg Hno; cbn [run fold_left]; [split; [exact Hg | reflexivity]|].
+  inversion Hno as [|? ? Hn1 Hn2]; subst.
   destruct (step h s o) as [s1 res] eqn:E. cbn [fst]. fold (run h s1 ops).
-  destruct (step_good _ _ _ _ Hg E) as [Hg1 Hx1]. destruct (IH s1 Hg1) as [A B]. split; [exact A | congruence].
+  destruct (step_good _ _ _ _ Hg Hn1 E) as [Hg1 Hx1]. destruct (IH s1 Hg1 Hn2) as [A B]. split; [exact A | congruence].
 Qed.
 
 (** C07_suffix_index_sound *)
 Lemma suffix_index_sound : forall s0 ops,
-  wf s0 -> idx_sound s0 -> recs_nn s0 ->
+  wf s0 -> idx_sound s0 -> recs_nn s0 -> Forall named_ok ops ->
   let s := run h s0 ops in
   idx_sound s /\
   forall k r f froms, rget k (s_recs s) = Some r -> In f (all_froms r) -> In f froms ->
     In (k, r) (get_records s (fst k) froms).
 Proof.
-  intros s0 ops Hw Hi Hn. cbn zeta.
-  destruct (run_good ops s0 (conj Hw (conj Hi Hn))) as [(Hw' & Hi' & _) _].
+  intros s0 ops Hw Hi Hn Hno. cbn zeta.
+  destruct (run_good ops s0 (conj Hw (conj Hi Hn)) Hno) as [(Hw' & Hi' & _) _].
   split; [exact Hi'|]. intros k r f froms Hg Hf Hfr. apply (get_records_complete _ _ _ _ _ Hw' Hi' Hg Hf Hfr).
 Qed.
 
